@@ -27,7 +27,11 @@ func neoCfg(rng *kernel.RNG, cfg map[string]int64, fam int64) []neoChange {
 		chs = append(chs, neoChange{off: off, mask: mask})
 	}
 	if fam == 2 {
-		cfg["nsv0"] = int64(4 + rng.Intn(4))
+		// tracked state-validator sets of every size 1..10, sizes divisible by 3 over-weighted
+		cfg["nsv0"] = int64(1 + rng.Intn(10))
+		if rng.Chance(0.45) {
+			cfg["nsv0"] = []int64{3, 6, 9}[rng.Intn(3)]
+		}
 	}
 	return chs
 }
@@ -57,7 +61,7 @@ func neoChainOf(pl *kernel.Plan, seed uint64) *neoChain {
 	return c
 }
 
-var neoFaults = []int64{1, 2, 3, 4, 5, 6, 7, 9}
+var neoFaults = []int64{1, 2, 3, 4, 5, 6, 7, 9, 10, 11}
 var neoHonest = []int64{0, 0, 0, 8}
 
 func genNeoC31(rng *kernel.RNG, tier string, fam int64) *kernel.Plan {
@@ -160,6 +164,17 @@ func genNeoC24(rng *kernel.RNG, tier string, fam int64) *kernel.Plan {
 				steps = append(steps, st("cut"))
 			}
 		}
+		if fam == 2 { // N3: k-of-n scripts over the tracked state validators, k = m-1 / m+1 (always on)
+			if rng.Chance(0.4) {
+				steps = append(steps, st("ndep", 10, r(), r(), r(), 0))
+				if rng.Chance(0.7) {
+					steps = append(steps, st("cut"))
+				}
+			}
+			if rng.Chance(0.15) {
+				steps = append(steps, st("ndep", 11, r(), r(), r(), 0), st("cut"))
+			}
+		}
 		steps = append(steps, st("ndep", neoHonest[rng.Intn(len(neoHonest))], r(), r(), r(), 0))
 		if rng.Chance(0.7) {
 			steps = append(steps, st("cut"))
@@ -203,8 +218,8 @@ func execNeoFam(run *kernel.Run, fam int64) {
 		if n < 1 {
 			n = 1
 		}
-		if n > 7 {
-			n = 7
+		if n > ontPool {
+			n = ontPool
 		}
 		r.svChange(true, c.pool[ontPool-n:])
 	}
@@ -258,7 +273,7 @@ func (r *neoRun) svStep(s kernel.Step) {
 		r.svChange(false, []*account.Account{cur[int(abs64(s.Arg(1)))%len(cur)]})
 		return
 	}
-	if len(cur) >= 7 {
+	if len(cur) >= ontPool {
 		return
 	}
 	for i := 0; i < ontPool; i++ {
